@@ -2,6 +2,6 @@
 # usage: seed_eval_all.sh ID...  — evaluates both changes of each id against the check of the same id
 cd /verif
 for id in "$@"; do for k in ${KS:-1 2}; do
-  [ -f /tmp/seed/out-$id/change$k.diff ] || continue
+  [ -f ${SEEDROOT:-/tmp/seed}/out-$id/change$k.diff ] || continue
   echo "=== $id-$k"; python3 tools/seed_eval.py $id $k 2>&1 | tail -4
 done; done
